@@ -42,7 +42,7 @@ func methodName(ci ssa.CallInstruction) string {
 		return cc.Method.Name()
 	}
 	if f := cc.StaticCallee(); f != nil {
-		return f.Name()
+		return baseName(f)
 	}
 	return ""
 }
